@@ -257,14 +257,15 @@ def unparse_FormattedValue(node: FormattedValue, qm) -> unparse_gen_t:
         assert isinstance(node.format_spec, JoinedStr)
         format_spec = yield from _unparse_JoinedStr(node.format_spec, qm)
         format_spec = ":" + format_spec
+    conversion = ""
+    if node.conversion != -1:
+        conversion = "!" + chr(node.conversion)
     if value[0] == "{":
         value = " " + value
-    if format_spec and format_spec[-1] == "}":
-        format_spec = format_spec + " "
     # f'{{di:ct}:.2f}' (SyntaxError)
     # will be converted as
     # f'{ {di:ct}:.2f}' (Good)
-    return "{" + value + format_spec + "}"
+    return "{" + value + conversion + format_spec + "}"
 
 
 def unparse_Starred(node: Starred) -> unparse_gen_t:
